@@ -134,10 +134,14 @@ def is_rising(bins: ArrayLike) -> bool:
     return True
 
 
-def is_consecutive(bins: ArrayLike, rtol: float = 1.0e-5, atol: float = 1.0e-8) -> bool:
+def is_consecutive(bins: ArrayLike, rtol: float = 0.0, atol: float = 0.0) -> bool:
     """Check whether the bins are consecutive (edges match).
 
     Does not check if the bins are in rising order.
+
+    By default the edges have to match exactly, as they do wherever values
+    are assigned to bins: a tolerance (relative to the edge values) would
+    declare narrow gaps far from zero closed while values still fall into them.
     """
     bins = np.asarray(bins)
     if bins.ndim == 1:
